@@ -1,2 +1,10 @@
 #!/bin/sh
-exit 0
+# offline build of the SSA exporter; nothing is fetched
+set -e
+DIR="$(cd "$(dirname "$0")" && pwd)"
+export GOFLAGS=-mod=mod GOPROXY=off GOSUMDB=off GOTOOLCHAIN=local
+mkdir -p "$DIR/govc/bin" "$DIR/evidence"
+cd "$DIR/govc/export" && go build -o "$DIR/govc/bin/govc-export" .
+python3-vt -c "import z3, sys; sys.exit(0)"
+python3-vt -m compileall -q "$DIR/govc/py" >/dev/null
+echo "govc ready"
